@@ -608,7 +608,11 @@ func c15Check(c c15Case, st *stats.Run) error {
 		if filepath.IsAbs(outRel) {
 			outRel, _ = filepath.Rel(dir, outRel)
 		}
-		if d := snapDiff(before, after, outRel); d != "" && !sameFileHit {
+		ign := []string{outRel}
+		if c.Symlink && sameTarget != "" {
+			ign = append(ign, filepath.Join("store", sameTarget)) // the file behind the symbolic link named by -o
+		}
+		if d := snapDiff(before, after, ign...); d != "" && !sameFileHit {
 			return pbt.Failf("C15/other-files-touched", "%s; files other than the output changed: %s", desc, d)
 		}
 	}
